@@ -109,6 +109,15 @@ impl<'ast> Visit<'ast> for LoopFinder {
                 }
             }
         }
+        // D30: for PAT in EXPR { ... }   (PAT an identifier; EXPR evaluated once to an indexable sequence)
+        if let syn::Pat::Ident(_) = &*e.pat {
+            let p0 = e.pat.span().byte_range();
+            let ex = e.expr.span().byte_range();
+            self.vd.push(format!(
+                "{{\"rule\":\"D30\",\"call\":[{},{}],\"pat\":[{},{}],\"expr\":[{},{}]}}",
+                s.start, b.start + 1, p0.start, p0.end, ex.start, ex.end
+            ));
+        }
         // D19: for (I, P) in X.iter().enumerate().take(A).skip(B) { ... }
         if let (syn::Pat::Tuple(pt), syn::Expr::MethodCall(sk)) = (&*e.pat, &*e.expr) {
             if sk.method == "skip" && sk.args.len() == 1 && pt.elems.len() == 2 {
@@ -180,6 +189,27 @@ impl<'ast> Visit<'ast> for LoopFinder {
         let b = e.body.brace_token.span.open().byte_range();
         self.loops.push((s.start, b.start, s.end));
         syn::visit::visit_expr_loop(self, e);
+    }
+    fn visit_expr_reference(&mut self, e: &'ast syn::ExprReference) {
+        // D31: &V[A..B] / &V[A..=B]
+        if e.mutability.is_none() {
+            if let syn::Expr::Index(ix) = &*e.expr {
+                if let syn::Expr::Range(rg) = &*ix.index {
+                    if let (Some(lo), Some(hi)) = (&rg.start, &rg.end) {
+                        let call = e.span().byte_range();
+                        let recv = ix.expr.span().byte_range();
+                        let l = lo.span().byte_range();
+                        let h = hi.span().byte_range();
+                        let closed = matches!(rg.limits, syn::RangeLimits::Closed(_));
+                        self.vd.push(format!(
+                            "{{\"rule\":\"D31\",\"call\":[{},{}],\"recv\":[{},{}],\"lo\":[{},{}],\"hi\":[{},{}],\"closed\":{}}}",
+                            call.start, call.end, recv.start, recv.end, l.start, l.end, h.start, h.end, closed
+                        ));
+                    }
+                }
+            }
+        }
+        syn::visit::visit_expr_reference(self, e);
     }
     fn visit_expr_closure(&mut self, e: &'ast syn::ExprClosure) {
         self.closures += 1;
